@@ -29,7 +29,7 @@ ACTION_PROPS = ['C07_NoFalseTimeout']
 BASE_CONSTS = dict(
     Sid='{1}', MaxMsg=2, PingInterval=2, PingTimeout=1, AsyncHandlers='FALSE', Monitor='FALSE',
     WsAvailable='TRUE', Transports='{"polling", "websocket"}', ImplSentinel='TRUE',
-    ImplWsReadTimeout='FALSE', Deviations='{}', Horizon=6, Alpha='{}', MaxQ=4, MaxReq=6,
+    ImplWsReadTimeout='FALSE', ImplJoinLatch='FALSE', Deviations='{}', Horizon=6, Alpha='{}', MaxQ=4, MaxReq=6,
     MaxPings=2, MaxEv=4, EnvAnytime='FALSE', BodyProfile='"msg"', FrameProfile='"handshake"')
 
 
